@@ -195,7 +195,8 @@ pub fn crash_clone(op: u8, c: usize, r: usize) {
             drop(u);
         })
     } else {
-        let (s, e) = window(c, r);
+        // concrete window (a symbolic one gives the clone target a symbolic capacity)
+        let (s, e) = ((if c > 1 { 1 } else { 0 }, 0), (c, r));
         guarded(|| {
             let u = TooDee::from(t.view(s, e));
             drop(u);
